@@ -18,6 +18,9 @@ for path in sorted(glob.glob("/tmp/seed_replays/*/*.json")):
     r = d.get("replay") or {}
     if d.get("kind") != "failing-input" or "hist" not in r or r.get("case", "").startswith(("seed-", "d")):
         continue
+    hist = r["hist"]
+    if any(op[0] == "R" and (i == 0 or hist[i - 1][0] != "X") for i, op in enumerate(hist)):
+        continue            # shrunk past the stop: a crash restart, outside the histories the oracle judges
     out = {"name": f"seed-{seed}", "version": r["version"], "kind": r.get("kind", "base"),
            "persist": r.get("persist", "none"), "hist": r["hist"],
            "note": f"found on seeded change {seed}: {d.get('what', '')[:160]}"}
